@@ -1,1 +1,7 @@
 import GqlProofs.Props.C03
+import GqlProofs.Parser.Run
+import GqlProofs.Parser.Limit
+import GqlProofs.Parser.Pulls
+import GqlProofs.Parser.LimitErr
+import GqlProofs.Parser.Results
+import GqlProofs.Props.C16
